@@ -209,6 +209,20 @@ def gen_scipy(rng, tier):
                     if not deg:
                         ang = [math.radians(a) for a in ang]
                     cases.append({'op': 'euler', 'seq': s, 'degrees': deg, 'angles': [ang], 'single': rng.random() < 0.5, 'gimbal': False})
+        # float32 rotations whose second angle is 3e-5 .. 2e-4 rad away from gimbal lock: regular for the code's threshold (1e-7), so the third
+        # angle must not be discarded (added after round-5 seeded change C12-e2: a dtype-dependent threshold)
+        for k, seq in enumerate(SEQS3):
+            intrinsic = k % 2 == 0
+            s = seq.upper() if intrinsic else seq
+            sym = seq[0] == seq[2]
+            delta = [1e-4, 2e-4, 3e-5][k % 3]
+            second = (delta if k % 4 < 2 else math.pi - delta) if sym else (math.pi / 2 - delta if k % 4 < 2 else -math.pi / 2 + delta)
+            cases.append({'op': 'euler', 'seq': s, 'degrees': False, 'angles': [[rng.uniform(-3, 3), second, rng.uniform(-3, 3)]], 'single': True,
+                          'gimbal': True, 'f32': True})
+        # integer angles (python ints / an int64 tensor): scipy accepts them (before repair of from_euler the result was the zero quaternion)
+        for seq, ang in (('xyz', [1, 2, 3]), ('ZXZ', [3, 1, -2]), ('yx', [2, -1]), ('X', [4])):
+            cases.append({'op': 'euler_short', 'seq': seq, 'degrees': False, 'angles': [ang], 'single': True, 'int_angles': True})
+            cases.append({'op': 'euler_short', 'seq': seq, 'degrees': True, 'angles': [[30 * a for a in ang]], 'single': True, 'int_angles': True})
         for seq in ['x', 'y', 'z', 'xy', 'yx', 'zy', 'xz', 'ZX', 'YZ', 'Z']:
             n = len(seq)
             cases.append({'op': 'euler_short', 'seq': seq, 'degrees': rng.random() < 0.5,
@@ -303,16 +317,20 @@ def impl_scipy(c):
         out.append([label, np.asarray(a, dtype=float).tolist(), np.asarray(b, dtype=float).tolist(), tol])
     if op in ('euler', 'euler_short'):
         ang = c['angles'][0] if c['single'] else c['angles']
-        r = M().from_euler(c['seq'], t64(ang), degrees=c['degrees'])
+        if c.get('int_angles'):
+            r = M().from_euler(c['seq'], ang if len(ang) % 2 else torch.tensor(ang), degrees=c['degrees'])     # a list of python ints / an int64 tensor
+        else:
+            r = M().from_euler(c['seq'], t64(ang).to(torch.float32) if c.get('f32') else t64(ang), degrees=c['degrees'])
         s = S().from_euler(smap(c['seq']), ang, degrees=c['degrees'])
-        add('from_euler matrix', mat(r), s.as_matrix())
+        add('from_euler matrix', mat(r), s.as_matrix(), 2e-6 if (c.get('f32') or c.get('int_angles')) else 1e-9)     # float32 angles: rounding of the input itself
         add('single', [float(r.single)], [float(s.single)])
         if op == 'euler':
             back = r.as_euler(c['seq'], degrees=c['degrees'])
             sb = s.as_euler(smap(c['seq']), degrees=c['degrees'])
             r2 = M().from_euler(c['seq'], back, degrees=c['degrees'])
-            add('from_euler(as_euler) round trip', mat(r2), mat(r), 2e-6)     # as_euler: 1e-7 gimbal threshold, and the +-2pi wrap is added in float32 (1.7e-7)
-            add('as_euler angles represent the scipy rotation', S().from_euler(smap(c['seq']), back.numpy(), degrees=c['degrees']).as_matrix(), s.as_matrix(), 2e-6)
+            rt_tol = 2e-5 if c.get('f32') else 2e-6
+            add('from_euler(as_euler) round trip', mat(r2), mat(r), rt_tol)     # as_euler: 1e-7 gimbal threshold, and the +-2pi wrap is added in float32 (1.7e-7)
+            add('as_euler angles represent the scipy rotation', S().from_euler(smap(c['seq']), back.numpy(), degrees=c['degrees']).as_matrix(), s.as_matrix(), rt_tol)
             if not c['gimbal']:
                 u = 180.0 if c['degrees'] else math.pi
                 d = np.abs(np.asarray(back.numpy()) - np.asarray(sb))
